@@ -195,6 +195,10 @@ func errName(err error) string {
 		return "io.EOF"
 	case err == errScript:
 		return "errScript"
+	case err == io.ErrUnexpectedEOF:
+		return "io.ErrUnexpectedEOF(reader's)"
+	case err == io.ErrClosedPipe:
+		return "io.ErrClosedPipe(reader's)"
 	case err == errSpin:
 		return "errSpin"
 	}
@@ -347,7 +351,7 @@ func (x *parserExec) doReadFrom(op POp) {
 		x.report("C15", "ReadFrom error = %s; want %s (buffered %d of %d)", errName(err), errName(wantErr),
 			x.buffered(), x.cc.BufferSize)
 	}
-	if err != lz.ErrFullBuffer && err != io.EOF && err != errScript {
+	if err != lz.ErrFullBuffer && err != io.EOF && !isReaderFault(err) {
 		x.report("C16", "ReadFrom returned undocumented error %s", errName(err))
 	}
 }
